@@ -227,7 +227,7 @@ def parse_printed(out, tag):
     return vals
 
 
-def validate_trace(module, events, shards=None, timeout=900, env=None, name=None, xmx="500m", per_shard_min=1, c1=None):
+def validate_trace(module, events, shards=None, timeout=2400, env=None, name=None, xmx="500m", per_shard_min=1, c1=None):
     """Write events (list of dicts) as ndjson shards and run spec/<module>.tla on each with
     TRACE=<shard>. The module must print <<"BAD", line, id, why>> for rejected events and
     <<"DONE", n_events, n_bad>> when the whole shard has been consumed.
